@@ -861,3 +861,34 @@ Proof.
   - do 6 right. left. reflexivity.
   - do 7 right. left. reflexivity.
 Qed.
+
+(* ================================================================== *)
+(* the reader's keyword tables, PINNED.  Every theorem above holds for whatever tables the translator
+   generates from reader.cpp / def.hpp, and the correspondence check compares the implementation with the
+   model built from those same tables - so a keyword ADDED to the reader (one more label that is silently
+   read as a section) moves model and implementation together.  This theorem is the tie that does not
+   move: the generated tables are exactly the reviewed ones. *)
+Definition PINNED_SECTION_WORDS : list (list N * lpsection) := [
+  ([109; 105; 110; 105; 109; 105; 122; 101], SEC_OBJMIN); ([109; 105; 110], SEC_OBJMIN);
+  ([109; 105; 110; 105; 109; 117; 109], SEC_OBJMIN);
+  ([109; 97; 120; 105; 109; 105; 122; 101], SEC_OBJMAX); ([109; 97; 120], SEC_OBJMAX);
+  ([109; 97; 120; 105; 109; 117; 109], SEC_OBJMAX);
+  ([115; 117; 98; 106; 101; 99; 116; 32; 116; 111], SEC_CON); ([115; 117; 99; 104; 32; 116; 104; 97; 116], SEC_CON);
+  ([115; 116], SEC_CON); ([115; 46; 116; 46], SEC_CON);
+  ([98; 111; 117; 110; 100; 115], SEC_BOUNDS); ([98; 111; 117; 110; 100], SEC_BOUNDS);
+  ([98; 105; 110; 97; 114; 121], SEC_BIN); ([98; 105; 110; 97; 114; 105; 101; 115], SEC_BIN); ([98; 105; 110], SEC_BIN);
+  ([103; 101; 110; 101; 114; 97; 108], SEC_GEN); ([103; 101; 110; 101; 114; 97; 108; 115], SEC_GEN);
+  ([103; 101; 110], SEC_GEN); ([105; 110; 116; 101; 103; 101; 114], SEC_GEN);
+  ([105; 110; 116; 101; 103; 101; 114; 115], SEC_GEN);
+  ([115; 101; 109; 105; 45; 99; 111; 110; 116; 105; 110; 117; 111; 117; 115], SEC_SEMI);
+  ([115; 101; 109; 105], SEC_SEMI); ([115; 101; 109; 105; 115], SEC_SEMI);
+  ([115; 111; 115], SEC_SOS); ([101; 110; 100], SEC_END) ]%N.
+
+Theorem keyword_tables_pinned :
+  SECTION_KEYWORDS = PINNED_SECTION_WORDS /\
+  KEYWORD_INF = [[105; 110; 102; 105; 110; 105; 116; 121]; [105; 110; 102]]%N /\
+  KEYWORD_FREE = [[102; 114; 101; 101]]%N /\
+  SINGLE_CHAR_TOKENS = [91; 93; 60; 62; 61; 58; 43; 94; 47; 42; 45]%N /\
+  SKIP_LINE_CHARS = [92; 59; 10]%N /\ BLANK_CHARS = [32; 9]%N /\
+  IDENT_DELIMS = [9; 10; 92; 58; 43; 60; 62; 94; 61; 32; 47; 45; 42; 91; 93]%N.
+Proof. repeat split; reflexivity. Qed.
